@@ -349,3 +349,7 @@ Lemma sleep_not_hold p : sleeppc p = true -> holdpc p = false.
 Proof. pc_cases p. Qed.
 Lemma cur_hold p : curpc p = true -> holdpc p = true.
 Proof. pc_cases p. Qed.
+Lemma wait_cst p : wst p <> WNone -> cst p = CBefore.
+Proof. destruct p; cbn; intros H; try reflexivity; try (exfalso; apply H; reflexivity);
+  repeat match goal with c : cont |- _ => destruct c | pk : popk |- _ => destruct pk end; cbn in *; try reflexivity;
+  exfalso; apply H; reflexivity. Qed.
